@@ -14,7 +14,7 @@
 #define PN 3
 #endif
 static const char ALPHA[] = "a()|*+?{},019[]^$\\.-:<>";
-static char *LINES[] = {"\n", "a\n", "a1\n", "aa a\n", "\xc3\xa9-a\n", "a\xe4\xb8\xad\n"};
+static char *LINES[] = {"\n", "a\n", "a1\n", "aa a\n", "\xc3\xa9-a\n", "a\xe4\xb8\xad\xf0\x9f\x98\x80\n"};
 #define NLINES (sizeof(LINES) / sizeof(LINES[0]))
 static int boundary(const char *s, int off)
 {
